@@ -129,6 +129,7 @@ def cases(tier: str):
                     for form in (("id", "ref", "tag", "substr") if n <= (2 if q else 3) else (("id", "substr") if n == 3 else ("id",))):
                         yield dict(n=n, es=es4, falsy_inputs=bool(fz), form=form, ydefault=(n >= 2 and off == 0), is_async=[None, True, False][(len(es) + n) % 3])
     yield dict(n=3, es=kinds_rotating([(0, 2), (1, 2)], 0), special="ambiguous_tag", form="id", ydefault=False, falsy_inputs=False, is_async=None)
+    yield dict(n=3, es=[], special="identity", form="id", ydefault=False, falsy_inputs=False, is_async=None)
     yield dict(n=3, es=[], special="none_values", form="id", ydefault=False, falsy_inputs=False, is_async=None)
     yield dict(n=3, es=kinds_rotating([(0, 1), (1, 2)], 0), special="ellipsis", form="id", ydefault=True, falsy_inputs=False, is_async=None)
 
@@ -179,7 +180,49 @@ def run_none_values(acc, c):
     acc.transitions += 3
 
 
+def run_identity(acc, c):
+    """setup results are TAKEN from the original (same object), never cloned: a handle that cannot be copied, a stateful object"""
+    nodes = (GNode(setup=True, res="t"), GNode(edges=(Edge(0, "pos"), Edge(-1, "pos")), res="t"), GNode(edges=(Edge(1, "pos"), Edge(0, "kw")), res="m"))
+    p = GProg(nodes=nodes, mc=2, params=(("x", NODEFAULT),))
+    ids = p.ids()
+    src = p.source()
+    acc.cases += 1
+    for ran_before in (True, False):
+        d, ns = build_gprog(p)
+        H.RET_OBJ.clear()
+        H.RET_OBJ.add(ids[0])
+        try:
+            handle = None
+            if ran_before:
+                r0 = H.run_controlled(lambda: d("ox"))
+                handle = r0.value[0] if r0.outcome == "return" else None
+            acc.evaluations += 1
+            case = dict(c, ran_before=ran_before)
+            try:
+                comp = d.compose("comp", [p.param_id(0)], [ids[2]])
+            except Exception as e:  # noqa: BLE001
+                acc.violation(V("compose_refused", f"compose() on a DAG whose setup result is a non-copyable handle (setup ran before: {ran_before}) raised {e!r}"), case, (), None, src)
+                continue
+            res = H.run_controlled(lambda: comp("cx"))
+            if res.outcome != "return":
+                acc.violation(V("composed_call_failed", f"composed DAG call raised {res.exc!r}", exc=type(res.exc).__name__), case, (), res.trace, src)
+                continue
+            ent = {e[1]: e for e in res.trace if e[0] == "enter"}
+            if ran_before:
+                got = ent.get(ids[1], [None] * 6)[5]
+                if ids[0] in ent or not got or got[0] is not handle:
+                    acc.violation(V("setup_result_not_shared", f"the composed DAG must use the original's setup result {handle!r} itself; n1 received {got!r}, entered {sorted(ent)}"),
+                                  case, (), res.trace, src)
+            acc.mark_nontrivial(("identity", ran_before))
+        finally:
+            H.RET_OBJ.clear()
+    acc.states += 2
+    acc.transitions += 2
+
+
 def run_one(acc, c):
+    if c.get("special") == "identity":
+        return run_identity(acc, c)
     if c.get("special") == "none_values":
         return run_none_values(acc, c)
     n = c["n"]
